@@ -25,7 +25,8 @@ def s2v(spec, stream=None):
         g = np.full(n, 80.0)
     else:
         i2v = spec["range"] / (spec.get("maxint") or 512)
-        gains = gm.gains_of(spec)[:n]
+        k0 = spec.get("first_chan", 0)
+        gains = gm.gains_of(spec)[k0:k0 + n]  # the gain of a saved channel is the imro entry of its ORIGINAL channel number
         g = np.array([a if stream == "ap" else b for a, b in gains], dtype=float)
     return np.r_[i2v / g, np.ones(nsync)]
 
@@ -73,7 +74,7 @@ def geometry(spec, sort=True, shank=None):
     n = len(sites)
     arr = np.array([site_xy_rc(gen, *s) for s in sites], dtype=float).reshape(n, 4)
     shk = np.array([s[0] for s in sites], dtype=float)
-    adc, shift = adc_table(gen, np.arange(n))
+    adc, shift = adc_table(gen, spec.get("first_chan", 0) + np.arange(n))  # original channel numbers
     th = {"x": arr[:, 0], "y": arr[:, 1], "row": arr[:, 2], "col": arr[:, 3], "shank": shk,
           "adc": adc.astype(float), "sample_shift": shift.astype(float)}
     if shank is not None:
